@@ -215,7 +215,13 @@ class LowerBase:
         if self.has_top_paren(base) and not base.startswith('decltype') and not base.startswith('(lambda at '):
             # function / pointer-to-function type: opaque
             return {'kind': 'c', 'c': 'void', 'suf': ['*'], 'rec': None, 'fn': True}
-        r = self.resolve_base(base, ctx_node)
+        try:
+            r = self.resolve_base(base, ctx_node)
+        except Unsupported:
+            if suf and suf[-1] in ('*',) and '<' in base:
+                # pointer to a class type that is never looked into (tag-dispatch arguments): opaque pointer
+                return {'kind': 'c', 'c': 'void', 'suf': suf, 'rec': None}
+            raise
         if r[0] == 'alias':
             inner = self.tinfo(r[1], r[2])
             inner = dict(inner); inner['suf'] = inner['suf'] + suf
